@@ -213,7 +213,7 @@ extern "C" void h_redirect_roundtrip()
 
 // ---- H7: stream features AFTER authentication: the session is declared open only when nothing is left to negotiate ----------------------
 // (conforming server: no authentication offers any more; bind / stream management offered or not by case, CSI / session arbitrary)
-enum { EV_BIND = 1, EV_SM = 2 };
+enum { EV_BIND = 1, EV_SM = 2, EV_CANRESUME = 4 };   // EV_CANRESUME: the previous session left resumable state
 static QXmppStreamFeatures::Mode vpMode()
 {
     unsigned m = vp_u8(); vp_assume(m <= 2);
@@ -236,6 +236,7 @@ extern "C" void h_features()
     Fx &fx = *new Fx;       // instance cfg: the client itself listens, no session reported on this connection yet
     auto *d = fx.d;
     d->isAuthenticated = fx.preAuth = true;
+    d->c2sStreamManager.m_canResume = fx.preCanResume = (cfgEv() & EV_CANRESUME) != 0;
     QXmppStreamFeatures f;
     f.setBindMode((cfgEv() & EV_BIND) ? (vp_bool() ? QXmppStreamFeatures::Enabled : QXmppStreamFeatures::Required) : QXmppStreamFeatures::Disabled);
     f.setStreamManagementMode((cfgEv() & EV_SM) ? (vp_bool() ? QXmppStreamFeatures::Enabled : QXmppStreamFeatures::Required) : QXmppStreamFeatures::Disabled);
